@@ -700,3 +700,8 @@ def run(ctx):
     # the caller configured, also in a second dump from the same writer (same rule instance as C19/config-preserved)
     from rules import c19
     c19.rule_config_preserved(ctx, R="C06/options-kept", only=("crash_context", "minidump_size_limit", "skip_stacks_if_mapping_unreferenced", "principal_mapping_address", "sanitize_stack"))
+    # the stack's mapping is found among the aggregated mappings: a line may be folded into a module only under the guards of the
+    # aggregation rules (same rule instances as C13/merge-guards, C13/hull)
+    from rules import c13 as _c13
+    _c13.rule_merges(ctx, P="C06/mapping-extents")
+
